@@ -692,6 +692,7 @@ fn group_layer(ctx: &mut Ctx) {
             1 => vec![("k=N-1", &pr.n - 1u32), ("k=N", pr.n.clone()), ("k=N+1", &pr.n + 1u32)],
             2 => vec![("k=N+small", &pr.n + BigUint::from(1 + p.below(100))), ("k=2^256-1", two256m1.clone())],
             3 => vec![("k=single_digit", BigUint::from(1 + p.below(31)) << (p.below(250) as usize)), ("k=sparse_limbs", sparse_scalar(&mut p, 1 + (i / 6) % 14))],
+            4 => vec![("k=runs_of_ones", crate::sm2x::run_scalar(&mut p, &pr.n)), ("k=runs_of_ones", crate::sm2x::run_scalar(&mut p, &pr.n))],
             _ => vec![("k=random", r9::from_b(&p.bytes(32)))],
         };
         // ---------- G1
@@ -872,7 +873,7 @@ pub fn run(ctx: &mut Ctx) {
         "Fp12::fp_mul", "Fp12::fp_sqr", "Fp12::fp_inv", "Fp12::frobenius^1", "Fp12::frobenius^2", "Fp12::frobenius^3", "Fp12::frobenius^6", "Fp12::fp_line_mul", "Fp12::pow", "Fp12::final_exponent", "fp12_zero_subset", "fp12_c2_zero_branch",
         "sm9_u256_primitives", "mod_n_add", "mod_n_sub", "mod_n_mul", "mod_n_inv", "mod_n_pow", "mod_n_mul_product_shape", "fp_mul_product_shape", "booth_w5", "booth_w7", "booth_recomposition", "table_entry", "table_scalar", "table_scalar_negated",
         "G1::point_add", "G1::point_double", "G1::point_mul", "G1::g_mul", "G1::point_equals", "G1::is_on_curve", "G2::point_add", "G2::twist_point_add_full", "G2::point_double", "G2::point_mul", "G2::g_mul", "G2::point_equals", "G2::point_pi1",
-        "P_eq_Q_diff_Z", "P_eq_negQ_diff_Z", "P_ne_Q_rhs_Z!=1", "consecutive_negated_base", "consecutive_same_point_other_Z", "infinity_arbitrary_XY", "k=0", "k=N", "k=N+1", "k=2^256-1", "k=random", "k=sparse_limbs", "pow_sparse_exponent", "G1::infinity_equals_infinity", "near_order_sweep",
+        "P_eq_Q_diff_Z", "P_eq_negQ_diff_Z", "P_ne_Q_rhs_Z!=1", "consecutive_negated_base", "consecutive_same_point_other_Z", "infinity_arbitrary_XY", "k=0", "k=N", "k=N+1", "k=2^256-1", "k=random", "k=sparse_limbs", "k=runs_of_ones", "pow_sparse_exponent", "G1::infinity_equals_infinity", "near_order_sweep",
     ]);
     tower_layer(ctx);
     modn_layer(ctx);
